@@ -109,7 +109,8 @@ def check(tr):
         if b["m"] == "resume_trial" and b.get("trial") in errored and b["s0"] > errored[b["trial"]]:
             out.append(V("C13", "R4.failed_trial_resumed", tr, "trial %s failed and was later resumed" % b["trial"], b["s0"]))
             break
-    if scen["kind"] in NOREPEAT_KINDS:
+    if scen["kind"] in NOREPEAT_KINDS and not scen["scheduler"].get("allow_duplicates"):
+        # ("when it promises no repeats": not demanded of a searcher configured with allow_duplicates=True)
         failed_hp = {hp_part(tr, configs.get(t)): (t, s) for t, s in errored.items() if configs.get(t) is not None}
         for c in tr.sched:
             if c["m"] == "suggest" and c["exc"] is None and c["ret"] and c["ret"]["new"]:
